@@ -14,6 +14,8 @@ Families
                  every caller parameterisation x strike representation; oracle = sympy derivatives of
                  the same tree + the re-parameterisation chain rule (models/expr_ref.py), and the
                  table of accepted caller/pricer name pairs.
+  pricer_sequence consecutive autogreek calls (A, B, A) with different pricers that share module and qualified name
+                 (all ``def pricer`` / all lambdas) but not their signature, incl. a defaulted ``strike=2.0``.
   model_check    the closed forms of models/bs_closed.py against the defining expectations
                  (quadrature): a failure is a harness error, not a violation.
 """
@@ -664,6 +666,47 @@ def programs(ctx, block):
                                               names, skind, sval, vol_form, layout, alpha, eps, alias)
 
 
+#: pricers with pairwise different signatures, written the way a user would (all called ``pricer`` / all lambdas)
+SEQ_PRICERS = [
+    {"tree": ["X"], "xname": "spot", "vname": None},
+    {"tree": ["mul", ["X"], ["V"]], "xname": "spot", "vname": "volatility"},
+    {"tree": ["exp", ["X"]], "xname": "moneyness", "vname": None},
+    {"tree": ["div", ["X"], ["T"]], "xname": "log_moneyness", "vname": None},
+    {"tree": ["div", ["X"], ["K"]], "xname": "spot", "vname": None},
+    {"tree": ["div", ["X"], ["K"]], "xname": "spot", "vname": None, "defaults": {"strike": 2.0}},
+    {"tree": ["mul", ["V"], ["T"]], "xname": None, "vname": "volatility"},
+    {"tree": ["sqrt", ["V"]], "xname": None, "vname": "variance"},
+    {"tree": ["add", ["X"], ["V"]], "xname": "moneyness", "vname": "variance"},
+]
+
+
+@family
+def pricer_sequence(ctx, block):
+    """Consecutive autogreek calls in one process with DIFFERENT pricers that share __module__ and
+    __qualname__ (functions all named ``pricer`` as in a user's script, or lambdas) but have different
+    signatures (incl. one with a defaulted ``strike=2.0``): every call must see its own pricer's
+    parameters.  The reference model is per call; nothing carries over."""
+    import pfhedge.autogreek as autogreek
+    steps = block["steps"]
+    eps = torch.finfo(torch.float64).eps
+    alpha = dict(P_ALPHA)
+    spot_form = block["spot_form"]
+    names = E.caller_names(spot_form)
+    skind, sval = block["strike"]
+    for k, st in enumerate(steps):
+        tree = _tuplify(st["tree"])
+        model = _model(tree)
+        xname, vname = st["xname"], st["vname"]
+        pricer = E.compile_pricer(tree, xname or "spot", vname or "volatility", st.get("style", "def"), st.get("defaults"))
+        src = E.pricer_source(tree, xname or "spot", vname or "volatility", st.get("style", "def"), st.get("defaults")).strip()
+        for greek in block["greeks"]:
+            _program_case(ctx, {}, getattr(autogreek, greek), greek, tree, model, pricer,
+                          f"[call {k + 1} of {len(steps)} with same-named pricers] {src!r}", xname, vname, spot_form, names,
+                          skind, sval, vname or "volatility", "flat", alpha, eps, None,
+                          replay=dict(block, steps=steps[:k + 1], greeks=[greek]))
+    ctx.add("pricer_sequences", 1)
+
+
 ALIAS_COMMON = [0.4, 1.1, 1.9]   # values every tensor argument (spot-like, volatility-like, time, strike) may take
 
 
@@ -687,7 +730,7 @@ def _alias_options(block, greek, used, names, skind, vol_form):
 
 
 def _program_case(ctx, block, fn, greek, tree, model, pricer, src, xname, vname, spot_form, names, skind, sval,
-                  vol_form, layout, alpha, eps, alias=None):
+                  vol_form, layout, alpha, eps, alias=None, replay=None):
     site = f"autogreek.{greek}"
     xcaller = names[0]
     coord = {xcaller: 0, vol_form: 1, "time_to_maturity": 2}
@@ -718,7 +761,11 @@ def _program_case(ctx, block, fn, greek, tree, model, pricer, src, xname, vname,
         k = Kof(p)
         return None if k is None else mp.mpf(k)
 
+    fam = None if replay is None else "pricer_sequence"
+
     def mini(p=None):
+        if replay is not None:      # the violation may depend on the calls made before: replay the whole sequence
+            return replay
         b = {"trees": [tree], "xnames": [xname], "vnames": [vname], "greeks": [greek], "spot_forms": [spot_form],
              "vol_forms": [vol_form], "strikes": [[skind, sval]], "layouts": [layout if p is None else "scalar"],
              "points": [list(p)] if p is not None else [list(q) for q in pts], "alias_cases": [alias]}
@@ -767,7 +814,7 @@ def _program_case(ctx, block, fn, greek, tree, model, pricer, src, xname, vname,
             return
         ctx.tick(1)
         ctx.violation(site, "unsupported_names_return_value", desc + f": expected {verdict}, got a value",
-                      observed=out, expected=verdict, block=mini())
+                      observed=out, expected=verdict, block=mini(), family=fam)
         return
 
     # model values on the distinct points of the arguments the tree actually uses
@@ -799,6 +846,12 @@ def _program_case(ctx, block, fn, greek, tree, model, pricer, src, xname, vname,
     for grp in groups:
         try:
             out = fn(pricer, **kwargs_for(grp))
+        except TypeError as e:
+            ctx.tick(len(grp))
+            ctx.violation(site, "accepted_call_raises_TypeError",
+                          desc + f": a call inside the documented table raised TypeError: {str(e)[:160]}",
+                          observed=f"TypeError: {str(e)[:200]}", expected="the Greek", block=mini(grp[0]), family=fam)
+            continue
         except RuntimeError as e:
             ctx.tick(len(grp))
             # identically zero: proved by sympy, or (when simplify() cannot prove it) zero to 30 digits at
@@ -807,7 +860,7 @@ def _program_case(ctx, block, fn, greek, tree, model, pricer, src, xname, vname,
                     ("not have been used in the graph" in str(e) or "does not require grad" in str(e)):
                 ctx.violation(site, "identically_zero_greek_raises",
                               desc + f": the {greek} is identically 0 but RuntimeError is raised: {str(e)[:90]}",
-                              observed=f"RuntimeError: {str(e)[:200]}", expected=0.0, block=mini(grp[0]))
+                              observed=f"RuntimeError: {str(e)[:200]}", expected=0.0, block=mini(grp[0]), family=fam)
                 continue
             raise
         want_shape = () if layout == "scalar" else (len(grp),)
@@ -815,7 +868,7 @@ def _program_case(ctx, block, fn, greek, tree, model, pricer, src, xname, vname,
             ctx.tick(len(grp))
             ctx.violation(site, "shape_or_dtype", desc + f": shape {tuple(out.shape)} dtype {out.dtype}",
                           observed=[list(out.shape), str(out.dtype)], expected=[list(want_shape), "torch.float64"],
-                          block=mini(grp[0]))
+                          block=mini(grp[0]), family=fam)
             continue
         got = out.detach().reshape(-1)
         Et = torch.tensor([exp[p][0] for p in grp], dtype=torch.float64)
@@ -833,7 +886,7 @@ def _program_case(ctx, block, fn, greek, tree, model, pricer, src, xname, vname,
                 cls = "aliased_arguments"
             ctx.violation(site, cls, desc + f" at ({xcaller}, {vol_form}, T) = {list(p)}: got {g!r}, "
                           f"derivative = {e!r} (|diff| {abs(g - e):.3e} > tol {tol:.3e})",
-                          observed=g, expected=e, block=mini(p))
+                          observed=g, expected=e, block=mini(p), family=fam)
         ctx.tick(len(grp), nontrivial=0 if zero else len(grp))
     ctx.add("accepted_parameterisations_evaluated", 1)
     if greek == "gamma" and xname == "log_moneyness" and len(ctx.samples) < 6 and E.depth(tree) >= 1 and not zero \
@@ -947,6 +1000,15 @@ def run(ctx):
     n1 = len(all_programs(1, ("X", "V", "T", "K", "C")))
     ctx.add("programs_enumerated", n1)
     b1 = {"depth": 1, "leaves": ["X", "V", "T", "K", "C"], "alpha": alpha, "strikes": STRIKES + [extra_K]}
+    # sequences A, B, A of same-named pricers with different signatures
+    seqs = []
+    for style in ("def", "lambda"):
+        for a_, b_ in itertools.permutations(range(len(SEQ_PRICERS)), 2):
+            A, Bp = dict(SEQ_PRICERS[a_], style=style), dict(SEQ_PRICERS[b_], style=style)
+            for spot_form in ("spot+strike", "log_moneyness+strike"):
+                seqs.append({"steps": [A, Bp, A], "greeks": list(GREEKS), "spot_form": spot_form, "strike": ["float", 2.5]})
+    for b in seqs:
+        ctx.run("pricer_sequence", b)
     # argument aliasing on the programs: (differentiated argument, another tensor argument the pricer uses)
     ba = dict(b1, aliasing=True, spot_forms=["spot", "moneyness+strike", "log_moneyness+strike", "spot+strike"],
               strikes=[["float", 2.5], ["eq_spot", None]])
